@@ -190,6 +190,13 @@ def const_value(node, env=None):
     return NOCONST
 
 
+def _alpha(port):
+    if os.environ.get('RBQL_VERIF_NO_ALPHA'):
+        return []
+    from . import alpha
+    return alpha.canonicalise(port)
+
+
 def load_py():
     port = Port('py')
     for m in PY_MODULES:
@@ -211,6 +218,7 @@ def load_py():
         port.files[m] = path
         port.sha[m] = sha256_file(path)
     port.parser = 'python ast'
+    port.renamed = _alpha(port)
     port.index()
     return port
 
@@ -236,6 +244,7 @@ def load_js(extra=False):
         port.files[m] = paths[m]
         port.sha[m] = sha256_file(paths[m])
     port.parser = parser
+    port.renamed = _alpha(port)
     port.index()
     return port
 
